@@ -30,6 +30,9 @@ type HarnessResult struct {
 	MergedCalls  int            `json:"merged_calls"`
 	Pruned       int            `json:"pruned_branches"`
 	Queries      int            `json:"queries"`
+	FeasQueries  int            `json:"feasibility_queries"`
+	FeasS        float64        `json:"feasibility_s"`
+	FeasUnknown  int            `json:"feasibility_unknown"`
 	SolverS      float64        `json:"solver_s"`
 	WallS        float64        `json:"wall_s"`
 	Wins         map[string]int `json:"solver_wins"`
@@ -66,13 +69,15 @@ func main() {
 	split := flag.Int("split", 6, "bound on parts produced by strings.Split on symbolic input")
 	par := flag.Int("par", 5, "harnesses run in parallel")
 	noMerge := flag.Bool("no-merge", false, "disable if-conversion")
+	noSlice := flag.Bool("no-slice", false, "disable independence slicing of feasibility queries")
 	tags := flag.String("tags", "gosmt", "build tags for loading the harness module")
 	budget := flag.Int("harness-budget-s", 0, "wall-clock budget per harness (0 = none)")
 	verbose := flag.Bool("v", false, "verbose")
+	trace := flag.Bool("trace", false, "print fork sites")
 	flag.Parse()
 
 	res := RunResult{Pkg: *pkg, Solvers: strings.Split(*solvers, ",")}
-	cfg := RunConfig{BranchTimeoutMs: *branchMs, AssertTimeoutMs: *assertMs, MaxPaths: *maxPaths, MaxInstrs: *maxInstrs, Unwind: *unwind, Merge: !*noMerge}
+	cfg := RunConfig{BranchTimeoutMs: *branchMs, AssertTimeoutMs: *assertMs, MaxPaths: *maxPaths, MaxInstrs: *maxInstrs, Unwind: *unwind, Merge: !*noMerge, Slice: !*noSlice}
 	res.Config = cfg
 	t0 := time.Now()
 	sh, harnesses, err := loadProgram(*dir, *pkg, *tags)
@@ -105,11 +110,11 @@ func main() {
 			defer wg.Done()
 			sem <- struct{}{}
 			defer func() { <-sem }()
-			results[i] = runOneHarness(sh, h, cfg, res.Solvers, *split, *budget)
+			results[i] = runOneHarness(sh, h, cfg, res.Solvers, *split, *budget, *trace)
 			if *verbose {
 				r := results[i]
-				fmt.Fprintf(os.Stderr, "== %s: paths=%d instrs=%d merged=%d queries=%d solver=%.1fs wall=%.1fs obligations=%d inconclusive=%d\n",
-					r.Name, r.Paths, r.Instrs, r.MergedCalls, r.Queries, r.SolverS, r.WallS, len(r.Obligations), len(r.Inconclusive))
+				fmt.Fprintf(os.Stderr, "== %s: paths=%d instrs=%d merged=%d queries=%d (feas %d, %.1fs, unknown %d) solver=%.1fs wall=%.1fs obligations=%d inconclusive=%d\n",
+					r.Name, r.Paths, r.Instrs, r.MergedCalls, r.Queries, r.FeasQueries, r.FeasS, r.FeasUnknown, r.SolverS, r.WallS, len(r.Obligations), len(r.Inconclusive))
 				for _, o := range r.Obligations {
 					if (o.Kind != "reach" && o.Verdict != "unsat") || (o.Kind == "reach" && o.Verdict != "sat") {
 						fmt.Fprintf(os.Stderr, "   %s %q -> %s (%s, path %d) %v\n", o.Kind, o.Label, o.Verdict, o.Solver, o.Path, o.Model)
@@ -145,13 +150,13 @@ func writeResult(path string, r *RunResult) {
 	_ = os.WriteFile(path, bz, 0o644)
 }
 
-func runOneHarness(sh *Shared, h *ssa.Function, cfg RunConfig, solvers []string, split, budget int) (hr HarnessResult) {
+func runOneHarness(sh *Shared, h *ssa.Function, cfg RunConfig, solvers []string, split, budget int, trace bool) (hr HarnessResult) {
 	t0 := time.Now()
 	pf := NewPortfolio(solvers)
 	defer pf.Close()
 	e := &Engine{sh: sh, pf: pf, harness: h.Name(), cfg: cfg, funcsSeen: map[string]bool{}, reachSeen: map[string]bool{}, reachPending: map[string]string{},
 		stubsUsed: map[string]bool{}, linkCache: map[*ssa.Function]*ssa.Function{}, noMerge: map[*ssa.Function]string{}, topo: map[*ssa.Function][]*ssa.BasicBlock{},
-		deferC: map[*ssa.Function]bool{}, fnInfos: map[*ssa.Function]*fnInfo{}, splitBound: split}
+		deferC: map[*ssa.Function]bool{}, fnInfos: map[*ssa.Function]*fnInfo{}, symCache: map[*T]map[string]bool{}, splitBound: split, trace: trace}
 	if budget > 0 {
 		e.deadline = t0.Add(time.Duration(budget) * time.Second)
 	}
@@ -172,6 +177,7 @@ func runOneHarness(sh *Shared, h *ssa.Function, cfg RunConfig, solvers []string,
 	}()
 	hr.Paths, hr.PanicPaths, hr.Instrs, hr.MergedCalls, hr.Pruned = e.stats.Paths, e.stats.PanicPaths, e.stats.Instrs, e.stats.Merged, e.stats.Pruned
 	hr.Queries, hr.SolverS, hr.Wins = pf.Queries, pf.Time.Seconds(), pf.Wins
+	hr.FeasQueries, hr.FeasS, hr.FeasUnknown = e.stats.FeasN, float64(e.stats.FeasMs)/1000, e.stats.FeasUnknown
 	hr.Obligations = e.obligs
 	for l, r := range e.reachPending {
 		if !e.reachSeen[l] {
